@@ -274,8 +274,21 @@ def norm_refs(v):
     return " ".join(v.split())
 
 
-def check(ctx, form, sig, sample=False):
-    o = drive.convert_form(form)
+def check(ctx, form, sig, sample=False, fmt="dict", spacers=0):
+    sheets = form.to_sheets()
+    if spacers:
+        # empty spacer columns (no header, no cells) inside the header rows of the translated sheets
+        import random as _r
+        rr = _r.Random(spacers)
+        for nm in ("survey", "choices"):
+            if nm in sheets:
+                h, rows = sheets[nm]
+                for _ in range(rr.choice([1, 2, 2, 3])):
+                    pos = rr.randint(1, len(h))
+                    h = h[:pos] + [None] + h[pos:]
+                    rows = [r[:pos] + [None] + r[pos:] for r in rows]
+                sheets[nm] = (h, rows)
+    o = drive.convert_sheets(sheets, fmt=fmt, args=form.args)
     if not o.ok:
         ctx.ctr("rejected")
         if not o.exc_is_pyxform:
@@ -346,7 +359,14 @@ def run_shard(ctx):
             continue
         rng = ctx.rng("case", i)
         form = make_form(rng, i)
-        check(ctx, form, common.feature_sig(form, extra=(form.meta.get("dl_mode"),)), sample=(i < 2))
+        fmt, spacers = "dict", 0
+        if i % 6 == 4:
+            fmt = rng.choice(["csv", "xlsx", "xls", "csv"])
+            spacers = rng.randrange(1, 10**6)
+            if fmt == "csv" and not all(isinstance(c, str) and "\n" not in c or c is None for _, (h, rows) in form.to_sheets().items() for r in rows for c in r):
+                fmt = "xlsx"
+            ctx.ctr("spacer_column_cases")
+        check(ctx, form, common.feature_sig(form, extra=(form.meta.get("dl_mode"), fmt, bool(spacers))), sample=(i < 2), fmt=fmt, spacers=spacers)
 
 
 def replay(w):
